@@ -38,6 +38,10 @@ CHECKS = {
                 text="Grid of issue offsets within the rotation x use delays around 10 and 15 minutes (nanosecond-exact) x users (same address, other port, v4-mapped) x {announce_peer, immutable put, mutable put} x token source {get_peers, get}; 186 token mutations (all single-bit flips, truncations, extensions, empty, absent, second server's token, token issued to another IP); foreign IPs with the exact token. Recording peer store, BEP 44 store and announce callback observe effects. Accept <= 10 min and reject > 15 min are demanded, 10-15 min is free, reply <=> effect.",
                 note="the server secret is random per instance; oracles never depend on token bytes, only on who was issued what and when",
                 ref="DESIGN.md 5/C10"),
+    "C01": dict(level="model_checking", technique=E1 + "; crash attribution through a write-ahead journal of worker processes",
+                text="A structured hostile alphabet (about 450 datagrams: every field of every method removed/retyped/resized, envelope variants, unsolicited and malformed responses and errors, non-KRPC bytes up to 64 KiB, 10000-key dicts, 30000-deep nesting, 60000-digit integers) is delivered in 6 configurations x 4 start states, as singles and as all ordered pairs of the letters that had any effect at depth 1; the complete one-edit byte neighbourhood of a 42-datagram corpus; 10 own operations (ping .. getput.Put) each answered with about 480 hostile replies (all single and pairwise field alternatives plus malformed envelopes). After each history 40 virtual seconds pass, then a fresh ping must be answered (or registered when passive / out of budget) and Stats/NumNodes/Nodes/WriteStatus must return; a dead or wedged worker is reported with the journalled case.",
+                note="'all byte strings' is reached as alphabet + pairs + one-edit neighbourhood; a wedge on a leaked lock shows as a worker that makes no progress for 120 s of real time (normal case time is about 1 ms)",
+                ref="DESIGN.md 5/C01"),
 }
 
 NOT_YET = {}
